@@ -117,12 +117,29 @@ def parseTexts (phase : String) (s : String) : Option PathTexts :=
     | _, _, _, _, _ => none
   | _ => none
 
+/-- a document field (4 plan, 6 store, 8 descriptor) with its expected-value field (5, 7, 9): the hex of a TOML text that decodes
+(the expected field holds the canonical value; store: `none` / `none` = no file), or a raw state, whose expected field is `!` -
+`raw:<hex>` a regular file with bytes that do not decode (not valid UTF-8, or a String that is not TOML: the harness's claim),
+`lnk:<hex>` a symbolic link to such a file, `dir` a directory at the path, `lnkdir` a link to a directory, `missing` nothing at the
+path, `dangling` a dangling link (for the store these two may also carry the expected value `none`: tolerated) -/
+def parseDoc (s expected : String) : Option Doc :=
+  if s = "dir" ∨ s = "lnkdir" then (if expected = "!" then some .unreadable else none)
+  else if s = "missing" ∨ s = "dangling" then (if expected = "!" ∨ expected = "none" then some .missing else none)
+  else if s.startsWith "raw:" ∨ s.startsWith "lnk:" then
+    (if expected = "!" then (hexDecode (s.drop 4).toString).map Doc.undecodable else none)
+  else if expected = "!" then none else some .asGiven
+
 def parseInputs (fields : List String) : Option (String × Inputs String) :=
   match (if fields.length = 11 ∨ fields.length = 12 then (if othersOk (fields.getD 10 "") then some (fields.take 10) else none) else some fields) with
   | none => none
   | some fields10 =>
   match fields10 with
-  | [phase, dirs, vars, plat, _planToml, planX, _storeToml, storeX, _descToml, descX] =>
+  | [phase, dirs, vars, plat, planToml, planX, storeToml, storeX, descToml, descX] =>
+    let docs? : Option Docs := (parseDoc planToml planX).bind (fun dPlan => (parseDoc storeToml storeX).bind (fun dStore =>
+      (parseDoc descToml descX).map (fun dDesc => { desc := dDesc, plan := dPlan, store := dStore })))
+    match docs? with
+    | none => none
+    | some docs =>
     let dparts := dirs.splitOn "/"
     if !(dparts.length = 3 ∨ (dparts.length = 4 ∧ flagsOk (dparts.getD 3 ""))) then none else
     match (dparts.take 3).map hexDecode, parseVars vars, parsePlat plat with
@@ -140,13 +157,14 @@ def parseInputs (fields : List String) : Option (String × Inputs String) :=
       if phase = "detect" then
         if planX = "-" ∧ storeX = "-" then
           some (phase, { cwd := tRoot ++ app, bpDir := tx.bp, layersDir := none, platArg := tx.plat, planArg := tx.plan,
-                         vars := vars, plat := plat, plan := none, store := none, desc := descX })
+                         vars := vars, plat := plat, plan := none, store := none, desc := descX, docs := docs })
         else none
       else if phase = "build" then
         if planX = "-" ∨ storeX = "-" then none else
         some (phase, { cwd := tRoot ++ app, bpDir := tx.bp, layersDir := tx.layers, platArg := tx.plat, planArg := tx.plan,
                        vars := vars, plat := plat,
-                       plan := some planX, store := if storeX = "none" then none else some storeX, desc := descX })
+                       plan := some planX, store := if storeX = "none" ∨ storeX = "!" then none else some storeX, desc := descX,
+                       docs := docs })
       else none
     | _, _, _ => none
   | _ => none
@@ -155,6 +173,7 @@ def errName : Err → String
   | .platform => "CannotCreatePlatformFromPath" | .targetOs => "CannotDetermineTargetOs"
   | .targetArch => "CannotDetermineTargetArch" | .distroName => "CannotDetermineTargetDistroName"
   | .distroVersion => "CannotDetermineTargetDistroVersion"
+  | .descriptor => "exit254" | .plan => "CannotReadBuildpackPlan" | .store => "CannotReadStore"
 
 def renderEnv (e : PEnv) : String :=
   joinWith "," ((sortBy (fun a b => bytesLt a.1 b.1) e).map (fun kv => hexEncode kv.1 ++ ":" ++ hexEncode kv.2))
@@ -210,9 +229,12 @@ def handle (fields : List String) (obs : String) : String × String :=
   match parseInputs fields with
   | none => ("bad-op", "bad-op")
   | some (phase, i) =>
-    let model := match assemble utf8Valid i with
+    let build := phase = "build"
+    let model := match assembleDocs utf8Valid build i with
       | .ok c => renderCtx phase c
+      -- a descriptor that cannot be read never reaches `on_error`: `libcnb_runtime` reads its `api` key first and exits with 254
+      | .error .descriptor => "weird:exit=Some(254),onerr=0,dump=false"
       | .error e => "err:" ++ errName e
-    (model, Spec.verdict specValid i (parseSeen phase obs))
+    (model, Spec.verdictDocs specValid build i (parseSeen phase obs))
 
 end CnbVerif.DriverC06
